@@ -53,7 +53,8 @@ static void printf_input(const std::string &f, Rng &r, bool allow_big) {
 	std::string z = f; z.push_back('\0');
 	GuardedBuf gf(z.data(), z.size());
 	case_detail("printf format \"%s\" (%zu slots)", f.c_str(), slots.size());
-	FriggResult fr = run_frigg(gf.data(), slots);
+	bool huge = false; for(auto &d : P.dirs) if(d.width > 100000 || d.prec > 100000) huge = true;
+	FriggResult fr = run_frigg(gf.data(), slots, huge); // huge widths: the agent expands at most 1000 pad characters
 	count(fr.panicked ? "printf_stopped_by_assertion" : fr.agent_error ? "printf_agent_error" : "printf_completed");
 }
 
@@ -243,6 +244,24 @@ int main(int argc, char **argv) {
 			note_distinct(hash_str("tn:" + s));
 		}
 		for(const char *b : {"127", "128", "255", "256", "32767", "32768", "65535", "65536", "2147483647", "2147483648", "4294967295", "4294967296", "9223372036854775807", "9223372036854775808", "18446744073709551615", "18446744073709551616", ""}) { begin_case("to_number-long", i++); to_number_input(b, r); note_distinct(hash_str(std::string("tnb:") + b)); }
+	}
+	if(want_mode("printf-longnum")) {
+		// digit runs of 1..30 digits in every numeric position of a directive (width, precision, before '$'), with and without a
+		// conversion character behind them: the accumulation must neither overflow nor read past the terminator
+		Rng r(derive_seed("pl"));
+		long long i = 0;
+		for(size_t len = 1; len <= 30; len++) for(int pat = 0; pat < 5; pat++) for(int place = 0; place < 6; place++, i++) {
+			if(i % opt.nshards != opt.shard) continue;
+			begin_case("printf-longnum", i);
+			std::string num;
+			for(size_t k = 0; k < len; k++) num.push_back(pat == 0 ? '9' : pat == 1 ? (k ? '0' : '1') : pat == 2 ? "9223372036854775808"[k % 19] : pat == 3 ? "2147483648"[k % 10] : (char)('1' + r.below(9)));
+			std::string f = place == 0 ? "%" + num + "d" : place == 1 ? "%." + num + "d" : place == 2 ? "%" + num + "." + num + "s" : place == 3 ? "%" + num + "$d" : place == 4 ? "x%-" + num : "%#0" + num + "llx%." + num;
+			printf_input(f, r, true);
+			note_distinct(hash_str("pl:" + f));
+			count("printf_long_number_cases");
+			if(place < 3 && len <= 24) { std::string g = place == 0 ? "{:" + num + "}" : place == 1 ? "{" + num + "}" : "{" + num + ":0" + num + "x}"; if(len <= 6 || pat != 4) { /* widths up to 10^6 are really expanded */ } if(len > 6) fmt_input(g, r); else fmt_input(g, r); count("fmt_long_number_cases"); }
+		}
+		sample("printf-longnum: \"%9223372036854775808d\", \"%.99999999999999999999d\", \"%<30 digits>$d\", truncated \"x%-<digits>\"; the agent expands at most 1000 pad characters");
 	}
 	if(want_mode("printf-gen")) {
 		Rng r(derive_seed("pg"));
